@@ -101,6 +101,7 @@ type WideSpec struct {
 	Stored bool `json:"stored"`
 	Gap    int  `json:"gap"` // docs with i%Gap==Gap-1 have no "wf" field at all (0 = none)
 	IDDV   bool `json:"iddv,omitempty"`
+	Multi  bool `json:"multi,omitempty"` // the field occurs twice per document, both instances carry the dense term
 }
 
 // VecWideSpec is a parametric description of many one-vector documents (so
@@ -220,6 +221,14 @@ func (w *WideSpec) expand() []DocSpec {
 			add("e", 2)
 		}
 		d.Fields = []FieldSpec{f}
+		if w.Multi {
+			g := FieldSpec{Name: WideFieldName, Type: 't', DV: w.DV, AP: []uint64{1}, Len: 2,
+				Tokens: []TokenSpec{{Term: "all", Freq: 1}, {Term: B(fmt.Sprintf("m%d", i%3)), Freq: 1}}}
+			if w.Locs {
+				g.Tokens[0].Locs = []LocSpec{{Pos: 7, Start: 128, End: 131, AP: []uint64{1}}}
+			}
+			d.Fields = append(d.Fields, g)
+		}
 		out = append(out, d)
 	}
 	return out
